@@ -171,8 +171,7 @@ pub fn c01(tier: &str) -> Vec<Family> {
     // Every request kind with past / present / future deadlines (the scenario
     // set of C08), judged on the chronology clauses: nothing pending at or
     // before the current time, everything fires exactly at its deadline.
-    let mut boundary = c08(tier);
-    let mut f = boundary.remove(0);
+    let mut f = family_named(c08(tier), "request_validation");
     f.name = "deadline_boundaries";
     f.tags = TAGS_TIME;
     f.hang_is_violation = false;
@@ -184,7 +183,7 @@ pub fn c01(tier: &str) -> Vec<Family> {
     fams.push(f);
     // Stepping on after a clock error (the stepping sequences of C18 under clocks that
     // lag beyond the tolerance): whatever the calls return, nothing may run late.
-    let mut g = c18(tier).remove(0);
+    let mut g = family_named(c18(tier), "clock_gating");
     g.name = "after_clock_error";
     g.tags = TAGS_TIME;
     g.scenarios.retain(|s| s.label.starts_with("lag_above") || s.label.starts_with("lag_no_tolerance"));
@@ -195,7 +194,7 @@ pub fn c01(tier: &str) -> Vec<Family> {
         fams.push(Family::new(name, TAGS_TIME, sc).epoch(secs));
     }
     for (name, secs) in [("deadline_boundaries@-1s", -1i64), ("deadline_boundaries@-7s", -7)] {
-        let mut h = c08(tier).remove(0);
+        let mut h = family_named(c08(tier), "request_validation");
         h.name = name;
         h.tags = TAGS_TIME;
         h.hang_is_violation = false;
@@ -203,6 +202,11 @@ pub fn c01(tier: &str) -> Vec<Family> {
         fams.push(h.epoch(secs));
     }
     fams
+}
+
+/// Picks a family of another property's set by name (never by position).
+fn family_named(fams: Vec<Family>, name: &str) -> Family {
+    fams.into_iter().find(|f| f.name == name).unwrap_or_else(|| panic!("no family named {}", name))
 }
 
 fn zero_period_label(l: &str) -> bool {
